@@ -60,7 +60,7 @@ def main():
     k = next(i for i, e in enumerate(ev) if e["op"] == "image" and e["content"]["labels"])
     bad = copy.deepcopy(ev); bad[k]["bytes"][12] ^= 1      # label count in the header
     r = validate(ctx, "Trace_BinFormat", bad, p)
-    print("C01 corrupted header of image %d -> rejected %s" % (k + 1, r)); ok &= r == [k + 1]
+    print("C01 corrupted header of image %d -> rejected %s" % (k + 1, r)); ok &= set(r) == {k + 1}   # (the structural and the canonical clause may both fire)
     # ---- C06
     b = ctx.build("release", "mvh_text")
     ctx.harness(b, ["format-record", p, "10", "5"])
